@@ -62,11 +62,18 @@ class FlowTranslator:
             raise Unsupported("*args / **kwargs / positional-only parameters")
         self.params = [x.arg for x in a.args + a.kwonlyargs]
         self.locals = set(self.params)
+        keyed: t.Set[int] = set()      # lambdas that are the key of sorted(<local>, key=lambda p: E): desugared, see e()
         for n in ast.walk(func):
             if isinstance(n, ast.Name) and isinstance(n.ctx, ast.Store):
                 self.locals.add(n.id)
+            if isinstance(n, ast.Call):
+                lam = self._sort_key_lambda(n)
+                if lam is not None:
+                    keyed.add(id(lam))
             if isinstance(n, (ast.Lambda, ast.DictComp, ast.SetComp, ast.Yield, ast.YieldFrom, ast.Global,
                               ast.Nonlocal, ast.Try, ast.Delete, ast.Starred, ast.NamedExpr)):
+                if id(n) in keyed:
+                    continue
                 if not self._inside_raise(n):
                     raise Unsupported(type(n).__name__)
             if isinstance(n, (ast.FunctionDef, ast.AsyncFunctionDef, ast.ClassDef)) and n is not func:
@@ -128,6 +135,23 @@ class FlowTranslator:
                 if isinstance(root, ast.Name) and root.id in tainted and root.id != "self":
                     raise Unsupported(f"store into {root.id}, which may alias {tainted[root.id]}")
 
+    @staticmethod
+    def _sort_key_lambda(c: ast.Call) -> t.Optional[ast.Lambda]:
+        """sorted(<name>, key=lambda p: E) - the only use of a lambda that is given a meaning. CPython's sorted() copies the
+        iterable into a list, computes key(x) for every element in list order BEFORE comparing anything, then sorts stably by the
+        keys. With a plain local name as first argument (evaluating it twice has no effect) that is
+        sorted/key(<name>, [E for p in <name>]): same evaluations in the same order, same exceptions; the lambda's parameter is
+        local to it, as the comprehension's variable is. The sort itself is the world's `sorted/key`."""
+        if (isinstance(c.func, ast.Name) and c.func.id == "sorted" and len(c.args) == 1 and isinstance(c.args[0], ast.Name)
+                and len(c.keywords) == 1 and c.keywords[0].arg == "key" and isinstance(c.keywords[0].value, ast.Lambda)):
+            lam = c.keywords[0].value
+            a = lam.args
+            if (len(a.args) == 1 and not a.vararg and not a.kwarg and not a.posonlyargs and not a.kwonlyargs and not a.defaults
+                    and not any(isinstance(m, (ast.Lambda, ast.NamedExpr, ast.Yield, ast.YieldFrom, ast.Await))
+                                for m in ast.walk(lam.body))):
+                return lam
+        return None
+
     def _inside_raise(self, node) -> bool:
         for r in ast.walk(self.func):
             if isinstance(r, ast.Raise):
@@ -171,6 +195,13 @@ class FlowTranslator:
                 return f"(PStr {_zl(map(ord, v))})"
             raise Unsupported(f"constant {type(v).__name__}")
         if isinstance(x, ast.Call):
+            lam = self._sort_key_lambda(x)
+            if lam is not None:
+                if x.args[0].id not in self.locals:
+                    raise Unsupported("sorted(.., key=lambda) of a non-local")
+                seq = self.e(x.args[0])
+                keys = f"(PComp {self.e(lam.body)} [{_s(lam.args.args[0].arg)}] {seq} [])"
+                return f"(PCall {_s('sorted/key')} [{seq}; {keys}])"
             args = [self.e(a) for a in x.args]
             kws = []
             for kw in x.keywords:
